@@ -51,6 +51,13 @@ CHECKS = {
              "whose SimulatorStats must equal a recount from recorded arrivals, decisions, results and snapshots; an uncontended family checks "
              "the exact tick count of a lone pipeline against the tick model.",
         note=SIM_NOTE, ref="6 C06"),
+    "C07": dict(
+        technique="property-based differential testing (Hypothesis) across separate interpreter processes, hash seeds and in-process histories",
+        text="Each generated case is executed in three child interpreters (different PYTHONHASHSEED, after a history of unrelated simulations, "
+             "twice in one process) and the canonicalised tick-by-tick logs and statistics must be identical; generator fingerprints must not "
+             "depend on non-workload parameters and must depend on the seed.",
+        note="Hash seeds and histories are sampled; identical pipelines (twins) are injected so that ties exist where identifier or hash "
+             "order could matter.", ref="6 C07"),
     "C08": dict(
         technique="property-based testing (Hypothesis) of the full configuration x workload space with an admissibility monitor",
         text="Generated valid configurations and DAG workloads through run_simulator for naive, priority, priority-pool, overbook and the starter "
@@ -109,6 +116,13 @@ CHECKS = {
         text="Generated overbook simulations with overcommit: shape of every assignment, containers <= CPUs, no ready operator beside a free CPU after a "
              "triggered round, abandonment after three failed containers.",
         note=SIM_NOTE, ref="6 C18"),
+    "C19": dict(
+        technique="property-based testing (Hypothesis) against a loop-back HTTP server: payload oracle inside the handler + differential in-process replay",
+        text="run_simulator with scheduler_algo='rest' against an in-thread HTTP server playing a port of the Go reference policy and a tape-driven "
+             "policy; every request body compared with an independent serialisation of the live objects, protocol promises (disjointness, "
+             "completion reported exactly once, call discipline, no resource needs revealed) checked per call, decisions compared with what "
+             "the executor receives, and the whole run compared with an in-process replay of the same decisions.",
+        note="The Go server itself cannot be compiled in the sandbox (no Go toolchain); a line-by-line port stands in for it.", ref="6 C19"),
     "C20": dict(
         technique="property-based testing (Hypothesis) of the CLI tools with an exact-decimal oracle; child-process run of sensitivity-sample",
         text="Generated traces through `tools snap` (boundary, floor, never up, < 1 tick, idempotent, other columns intact) and `tools jitter` "
